@@ -280,6 +280,41 @@ def run_reader_content(chk, F, fs, rule="R7.content", names=("read_bits", "peek_
                            sample={"fn": spec.key, "cfg": "u%d" % w, "clause": kk, "paths": cnt} if w in (8, 64) else None)
 
 
+def loop_words(t, acc=None, depth=0):
+    """havoc'd loop-carried locals mentioned by a term"""
+    acc = [] if acc is None else acc
+    if isinstance(t, tuple) and t and depth < 40:
+        if t[0] == "havoc" and len(t) >= 5 and isinstance(t[4], str) and not t[4].endswith("'"):
+            acc.append(t)
+        else:
+            for x in t:
+                loop_words(x, acc, depth + 1)
+    return acc
+
+
+def carried_word(body, paths, name):
+    """at every back edge the local called `name` holds the byte-order-converted result of the last read_word of that iteration"""
+    ids = [l["id"] for l in body["locals"] if l.get("name") == name]
+    n = 0
+    for p in paths:
+        if p.end[0] != "back":
+            continue
+        rw = [ev for ev in p.calls() if ev[1] == "traits::words::WordRead::read_word"]
+        if not rw:
+            return False
+        want = ("okval", rw[-1][3])
+        vals = [p.state["env"].get(i) for i in ids if p.state["env"].get(i) is not None]
+        if not vals:
+            return False
+        for v in vals:
+            while isinstance(v, tuple) and v and v[0] in ("wordop", "cast") and v[1] in ("to_be", "to_le") or (isinstance(v, tuple) and v and v[0] == "cast"):
+                v = v[2] if v[0] == "wordop" else v[1]
+            if v != want:
+                return False
+        n += 1
+    return n > 0
+
+
 def run_reader_unary_content(chk, F, fs, rule="R7.content", widths=None):
     """read_unary: the buffer afterwards holds exactly the bits of the stream that follow the terminating one (result + 1 bits are
     consumed), in its valid window, and zeros elsewhere.  (That the consumed bits are `result` zeros and a one is the contract of
@@ -327,6 +362,11 @@ def run_reader_unary_content(chk, F, fs, rule="R7.content", widths=None):
                 sources = {}
                 if words:
                     sources[("okval", words[-1][3])] = ("wlast", w)
+                # a loop-carried local that holds, after every iteration, the word fetched last (`word = read_word()?` at the end of
+                # the loop body): after the loop it is the most recently fetched word, whichever iteration that was
+                for hv in loop_words(p.mem.get(BUF, BUF)):
+                    if carried_word(b, paths, hv[4]):
+                        sources[hv] = ("wlast", w)
                 S = Seqs(num, store, entry, sources)
                 r = num.aff(re_.ok_value(p))
                 try:
